@@ -127,7 +127,67 @@ pub struct VersionModel {
     pub state: VState,
 }
 
+/// A second, independent source tree (for two backups racing with different sources).
+#[derive(Clone)]
+pub struct AltTree {
+    pub path: PathBuf,
+    pub tree: TreeModel,
+    pub snap: Arc<Snap>,
+}
+
+#[derive(Clone, Debug, PartialEq, Serialize, Deserialize)]
+pub enum ActorSpec {
+    Backup {
+        opts: Opts,
+        /// back up the alternative source tree instead of the main one
+        #[serde(default)]
+        alt_src: bool,
+    },
+    Delete {
+        bands: Vec<u32>,
+        #[serde(default)]
+        dry_run: bool,
+        #[serde(default)]
+        break_lock: bool,
+    },
+}
+
+#[derive(Debug)]
+pub enum CallOut {
+    Backup(Result<conserve::BackupStats, ErrInfo>),
+    Delete(Result<conserve::DeleteStats, ErrInfo>),
+}
+
+impl CallOut {
+    pub fn is_ok(&self) -> bool {
+        matches!(self, CallOut::Backup(Ok(_)) | CallOut::Delete(Ok(_)))
+    }
+    pub fn err(&self) -> Option<&ErrInfo> {
+        match self {
+            CallOut::Backup(Err(e)) | CallOut::Delete(Err(e)) => Some(e),
+            _ => None,
+        }
+    }
+}
+
+pub struct ActorRun {
+    pub spec: ActorSpec,
+    pub outcome: Outcome<CallOut>,
+    pub errors: Vec<ErrInfo>,
+    pub ops: u32,
+    /// bands whose BANDHEAD this actor wrote successfully
+    pub bands_created: Vec<u32>,
+}
+
+pub struct RaceRun {
+    pub actors: Vec<ActorRun>,
+    pub trace: Vec<u32>,
+    pub preemptions: u32,
+    pub log_from: usize,
+}
+
 pub struct World {
+    pub alt: Option<AltTree>,
     pub core: Arc<SimCore>,
     pub scratch: Arc<Scratch>,
     pub src: PathBuf,
@@ -276,6 +336,7 @@ impl World {
         let core = SimCore::new(store);
         let tree = TreeModel::new(root_meta);
         let mut w = World {
+            alt: None,
             core,
             scratch,
             src,
@@ -308,6 +369,7 @@ impl World {
         };
         let core = SimCore::new(store);
         World {
+            alt: self.alt.clone(),
             core,
             scratch: self.scratch.clone(),
             src: self.src.clone(),
@@ -365,6 +427,125 @@ impl World {
         }
         self.snap = Arc::new(snap);
         Ok(applied)
+    }
+
+    /// Apply edits to the alternative source tree (created on first use).
+    pub fn apply_alt_edits(&mut self, root_meta: Meta, edits: &[EditOp]) -> std::io::Result<()> {
+        if self.alt.is_none() {
+            let path = self.scratch.path.join("src2");
+            std::fs::create_dir_all(&path)?;
+            self.alt = Some(AltTree {
+                path,
+                tree: TreeModel::new(root_meta),
+                snap: Arc::new(Snap::new()),
+            });
+        }
+        let alt = self.alt.as_mut().unwrap();
+        for e in edits {
+            tree::apply_edit(&mut alt.tree, &alt.path, e)?;
+        }
+        let root = alt.tree.nodes.get("/").unwrap().clone();
+        std::os::unix::fs::lchown(&alt.path, Some(root.meta.uid), Some(root.meta.gid))?;
+        std::fs::set_permissions(
+            &alt.path,
+            <std::fs::Permissions as std::os::unix::fs::PermissionsExt>::from_mode(root.meta.mode),
+        )?;
+        tree::settle_dir_times(&alt.tree, &alt.path)?;
+        alt.snap = Arc::new(tree::walk(&alt.path)?);
+        Ok(())
+    }
+
+    /// Run several Conserve invocations as concurrent simulated processes under `schedule`.
+    pub fn race(&mut self, specs: &[ActorSpec], schedule: &crate::sim::Schedule) -> RaceRun {
+        use crate::sim::{ActorFn, run_concurrent};
+        let log_from = self.core.log_len();
+        let mut actors: Vec<(CallOpts, ActorFn<CallOut>)> = Vec::new();
+        let mut monitors = Vec::new();
+        for (i, spec) in specs.iter().enumerate() {
+            let monitor = TestMonitor::arc();
+            monitors.push(monitor.clone());
+            let mut co = self.call_opts(FaultPlan::none());
+            co.actor = i as u32 + 1;
+            let f: ActorFn<CallOut> = match spec.clone() {
+                ActorSpec::Backup { opts, alt_src } => {
+                    let src = if alt_src {
+                        self.alt.as_ref().map(|a| a.path.clone()).unwrap_or_else(|| self.src.clone())
+                    } else {
+                        self.src.clone()
+                    };
+                    Box::new(move |t| {
+                        Box::pin(async move {
+                            let archive = match Archive::open(t).await {
+                                Ok(a) => a,
+                                Err(e) => return CallOut::Backup(Err(err_info(&e))),
+                            };
+                            let bo = backup_options(&opts);
+                            CallOut::Backup(conserve::backup(&archive, &src, &bo, monitor).await.map_err(|e| err_info(&e)))
+                        })
+                    })
+                }
+                ActorSpec::Delete { bands, dry_run, break_lock } => Box::new(move |t| {
+                    Box::pin(async move {
+                        let archive = match Archive::open(t).await {
+                            Ok(a) => a,
+                            Err(e) => return CallOut::Delete(Err(err_info(&e))),
+                        };
+                        let ids: Vec<BandId> = bands.iter().map(|b| band_id(*b)).collect();
+                        CallOut::Delete(
+                            archive
+                                .delete_bands(&ids, &DeleteOptions { dry_run, break_lock }, monitor)
+                                .await
+                                .map_err(|e| err_info(&e)),
+                        )
+                    })
+                }),
+            };
+            actors.push((co, f));
+        }
+        let rr = run_concurrent(&self.core, actors, schedule);
+        let log = self.core.log_since(log_from);
+        let store = self.store();
+        let mut runs = Vec::new();
+        for (i, (r, spec)) in rr.results.into_iter().zip(specs.iter()).enumerate() {
+            let actor = i as u32 + 1;
+            let bands_created: Vec<u32> = log
+                .iter()
+                .filter(|l| l.actor == actor && l.is_ok_write() && l.path.ends_with("/BANDHEAD"))
+                .filter_map(|l| format::parse_band_dir(l.path.split('/').next().unwrap_or("")))
+                .collect();
+            if let ActorSpec::Backup { opts, alt_src } = spec {
+                for b in &bands_created {
+                    let closed = store.nodes.contains_key(&format!("{}/BANDTAIL", format::band_dir_name(*b)));
+                    let snap = if *alt_src {
+                        self.alt.as_ref().map(|a| a.snap.clone()).unwrap_or_else(|| self.snap.clone())
+                    } else {
+                        self.snap.clone()
+                    };
+                    self.versions.insert(
+                        *b,
+                        VersionModel {
+                            snap,
+                            opts: opts.clone(),
+                            state: if closed { VState::Complete } else { VState::Interrupted },
+                        },
+                    );
+                }
+            }
+            runs.push(ActorRun {
+                spec: spec.clone(),
+                outcome: r.outcome,
+                errors: monitors[i].take_errors().iter().map(err_info).collect(),
+                ops: r.ops,
+                bands_created,
+            });
+        }
+        self.sync_versions_with_store();
+        RaceRun {
+            actors: runs,
+            trace: rr.trace,
+            preemptions: rr.preemptions,
+            log_from,
+        }
     }
 
     fn call_opts(&self, plan: FaultPlan) -> CallOpts {
